@@ -60,6 +60,7 @@ type FuncVer struct {
 	stepBudget int
 	heapSorts  map[string]*Sort
 	ghostLocals map[string]*ghostLocal
+	ghostAxioms []*Term // well-formedness of initial ghost values; added to every query that mentions them
 	entryVars  map[string]SVal
 }
 
